@@ -34,8 +34,8 @@ ASSUMPTIONS = [
     'match sets above RDKit\'s maxMatches=10000 are not generated; label '
     'names are identifiers that are not reserved words; the * suffix carries '
     'no verdict; the allylic prefix means "the atom has a double bond" (pinned '
-    'by the repository\'s test_atom_prefix3); stereo constraints are '
-    'exercised through C02/C03 only',
+    'by the repository\'s test_atom_prefix3); a stereo statement relates the '
+    'two named substituents through RDKit\'s E/Z flag and its reference atoms',
 ]
 CONFIG = {
     'shards': {'quick': 16, 'thorough': 16},
@@ -229,6 +229,9 @@ def mismatch_sig(ast, extra, missing):
     for k in ('charge', 'sat', 'cyc'):
         if ast['prefix'][k]:
             feats.add('mol prefix ' + k)
+    for st in ast.get('stereo') or []:
+        feats.add('stereo %s%s' % ('negated ' if st['neg'] else '',
+                                   st['type']))
     return 'match set differs from the denotation (%s; %s)' % (
         'omits' if missing and not extra else 'returns violating'
         if extra and not missing else 'both',
@@ -286,6 +289,55 @@ def frag(types, bonds, cons):
                       for i, (t, c) in enumerate(zip(types, cons))]}
 
 
+STEREO_MOLS = [r'C/C=C\C', r'C/C=C/C', 'CC=CC', r'C/C=C(/C)CC', r'C/C=C(\C)CC',
+               r'CC/C(C)=C(/C)CC', r'C/C=C\C=C/C', r'C/C=C/C=C\C', 'C1=CCCCC1',
+               r'C1=C\CCCCCC/1', r'O/C=C/C', r'O/C=C\C', 'CC(C)=CC',
+               r'C/C=C/O', 'C=CC', r'[CH2]/C=C/C', r'C/C(O)=C(/C)O']
+_STEREO = {}
+
+
+def stereo_pool():
+    if not _STEREO:
+        out = []
+        for s_ in STEREO_MOLS + molecules.stereo_alkenes()[::9]:
+            m = Chem.MolFromSmiles(s_)
+            if m is not None:
+                out.append((s_, 'as parsed', m))
+        _STEREO['p'] = out
+    return _STEREO['p']
+
+
+def stereo_fragment(rng):
+    """a-c=d-b (+ optional e on c, f on d) with one or two stereo statements
+    'x [!]cis|trans|notspecified to y for double bond between c and d'."""
+    def t(sym):
+        return {'prefix': None, 'symbol': sym,
+                'suffix': None if sym == 'H' else rng.choice(['?', '?', None])}
+    subs = ['C', 'C', 'H', '$', 'X', 'O']
+    types = [t(rng.choice(subs)), t('C'), t('C'), t(rng.choice(subs))]
+    bonds = [(1, 0, 'single'), (2, 1, 'double'), (3, 2, 'single')]
+    on_c, on_d = [0], [3]
+    if rng.random() < 0.5:
+        types.append(t(rng.choice(subs)))
+        bonds.append((len(types) - 1, 1, 'single'))
+        on_c.append(len(types) - 1)
+    if rng.random() < 0.5:
+        types.append(t(rng.choice(subs)))
+        bonds.append((len(types) - 1, 2, 'single'))
+        on_d.append(len(types) - 1)
+    ast = frag(types, bonds, [[] for _ in types])
+    for _ in range(rng.choice([1, 1, 2])):
+        x, y = rng.choice(on_c), rng.choice(on_d)
+        c, d = (1, 2) if rng.random() < 0.5 else (2, 1)
+        if rng.random() < 0.5:
+            x, y = y, x
+        ast['stereo'].append({'a': x, 'b': y, 'c': c, 'd': d,
+                              'neg': rng.random() < 0.3,
+                              'type': rng.choice(['cis', 'trans', 'cis',
+                                                  'trans', 'notspecified'])})
+    return ast
+
+
 def run_shard(ctx):
     pool = mol_pool(ctx.tier)
     ctx.notes['molecule_pool'] = len(pool)
@@ -310,6 +362,17 @@ def run_shard(ctx):
                 break
         if k < 3:
             ctx.sample({'fragment': text, 'molecules': [m[0] for m in mols]})
+    # 1b. fragments with double-bond stereo statements on E/Z molecules
+    sp = stereo_pool()
+    for k in range(40 if ctx.tier == 'quick' else 600):
+        ast = stereo_fragment(r)
+        text = R.render(ast, r)
+        for smi, how, mol in r.sample(sp, 8):
+            res = check_pair(ctx, ast, text, smi, how, mol)
+            if res == 'unreadable':
+                break
+            if res is None or res == 'ok':
+                ctx.count('stereo_statement_pairs')
     # 2. bounded-exhaustive enumeration
     stride = 24 if ctx.tier == 'quick' else 1
     n_enum = 0
